@@ -121,7 +121,7 @@ func genHistory(r *Rng, seed uint64, tier string) *C15Spec {
 			}
 		default:
 			op.Op = "knob"
-			op.I = pick(r, []int{1, 2, 5, 200})
+			op.I = pick(r, []int{1, 2, 5, 200, 200, 0, -1})
 			op.F = pick(r, []float64{1e-9, 1e-3, 0.5})
 		}
 		if op.Op == "set" && op.Field == "Regroup" {
